@@ -338,7 +338,7 @@ class Unit(HookHost):
             super().clear()
 
         def copy(self) -> "Unit._SubUnitsList":
-            return self.__init__(self._owner(), self)
+            return type(self)(self._owner(), self)
 
         def __setitem__(self, i: Union[SupportsIndex, slice], value: "Unit"):
             current = self[i]
